@@ -560,6 +560,6 @@ func main() {
 			"P PUSH3;NEWSTRUCT;PUSH0;NEWARRAY;DUP;ROT;APPEND;SER", "P SER", "P NEWMAP;NOTIFY", "P PUSH5;PB0102;PUSH1;PICKITEM", "P PB01;ARRAYSIZE;NEWARRAY;PUSH0;PICKITEM",
 			"P NEWMAP;DUP;NEWMAP;PUSH1;SETITEM", "P PUSH0;NEWARRAY;DUP;PUSH0;NEWSTRUCT;APPEND;PUSH0;PICKITEM;PUSH1;APPEND",
 		},
-		N: map[string]int{"quick": 1500, "thorough": 60000},
+		N: map[string]int{"quick": 1500, "thorough": 40000},
 	})
 }
